@@ -37,9 +37,9 @@ m = {
     "setup_cmd": "./check setup",
     "hooks": {
         "guard": "verif",
-        "enable": "go build -tags verif (the harness is built with the tag on every run; no hook files exist in /repo so far)",
+        "enable": "go build -tags verif (the harness is built with the tag on every run); one hook file: token/verif_hooks.go exposes envelope.NewCIDReader / NewCIDWriter as token.VerifCIDReader / VerifCIDWriter",
         "baseline_off_cmd": "cd /repo && GOFLAGS=-mod=mod GOPROXY=off GOSUMDB=off GOTOOLCHAIN=local go test -vet=off -count=1 ./...",
-        "source_commits": [],
+        "source_commits": ["6e84e06"],
         "add_only": True,
     },
     "engines": [{
